@@ -122,7 +122,7 @@ def coq_audit_sources():
 PROP_FILES = {
     "C02": ["C02", "C02u", "C00w"], "C07": ["C07", "C07u"], "C09": ["C09", "C09u", "C09t", "C09tm", "C09s"], "C16": ["C16", "C16b"],
     "C12": ["C12", "C12m"], "C14": ["C14", "C14m"], "C11": ["C11", "C11c"],
-    "C18": ["C18", "C18b"], "C20": ["C20", "C20b"], "C03": ["C03", "C03e"],
+    "C17": ["C17", "C17s"], "C18": ["C18", "C18b"], "C20": ["C20", "C20b"], "C03": ["C03", "C03e"],
 }
 
 
